@@ -324,7 +324,19 @@ pub fn apply(ev: &Value) -> Vec<Value> {
                         }
                     }
                     "pow" => json!({"tag":"ok","b":bound_v(&a.pow(inp["n"].as_u64().unwrap() as u8))}),
-                    "scale" => json!({"tag":"ok","b":bound_v(&(a * to_f64(&inp["k"])))}),
+                    "scale" => {
+                        // rescaled replay (see arith): the factor divided by 2^k, the interval's finite ends multiplied by 2^k
+                        let (mut a, mut k) = (a, to_f64(&inp["k"]));
+                        if let Some(r) = inp.get("rescale").and_then(|r| r.as_i64()) {
+                            let s = 2f64.powi(r as i32);
+                            k /= s;
+                            a = match Bound::new(a.lower() * s, a.upper() * s) {
+                                Ok(b) => b,
+                                Err(e) => return json!({"tag":"bad_input","msg":e.to_string()}),
+                            };
+                        }
+                        json!({"tag":"ok","b":bound_v(&(a * k))})
+                    }
                     "shift" => json!({"tag":"ok","b":bound_v(&(a + to_f64(&inp["k"])))}),
                     "int_round" => json!({"tag":"ok","b":bound_v(&a.as_integer_bound())}),
                     "nearest" => json!({"tag":"ok","x":from_f64(a.nearest_to_zero())}),
